@@ -3,6 +3,7 @@ package eng
 import (
 	"go/ast"
 	"go/token"
+	"sort"
 	"strings"
 
 	"golang.org/x/tools/go/ssa"
@@ -138,6 +139,109 @@ func (p *Prog) SetKnown(known map[string]bool) {
 	}
 	p.ModFuncs = anchors
 	deepProg = p
+	p.adopt(known, static)
+}
+
+// adopt finds the functions that stand where a function literal could stand:
+// an unexported module function or method no rule names, never called
+// statically, whose only use in the module is one function value (usually a
+// bound method value `w.visit`) created in one function. It is treated as a
+// closure of that function: listed by Closures, named encloser$k with k its
+// place among the encloser's literals and adopted methods in source order, its
+// receiver standing for the value the method value was bound to.
+func (p *Prog) adopt(known map[string]bool, static map[*ssa.Function]int) {
+	p.adopted = map[*ssa.Function]*ssa.Function{}
+	p.adoptees = map[*ssa.Function][]*ssa.Function{}
+	p.adoptBinding = map[*ssa.Function]ssa.Value{}
+	p.adoptSite = map[*ssa.Function]ssa.Instruction{}
+	p.closureOrd = map[*ssa.Function]int{}
+	type use struct {
+		in   ssa.Instruction
+		recv ssa.Value
+	}
+	uses := map[*ssa.Function][]use{}
+	boundTarget := func(w *ssa.Function) *ssa.Function {
+		if !strings.HasPrefix(w.Synthetic, "bound method wrapper") {
+			return nil
+		}
+		var t *ssa.Function
+		InstrsShallow(w, func(in ssa.Instruction) {
+			if c, ok := in.(*ssa.Call); ok && c.Call.StaticCallee() != nil {
+				t = c.Call.StaticCallee()
+			}
+		})
+		return t
+	}
+	for _, fn := range p.allMod {
+		InstrsShallow(fn, func(in ssa.Instruction) {
+			if mc, ok := in.(*ssa.MakeClosure); ok {
+				if w, ok := mc.Fn.(*ssa.Function); ok {
+					if t := boundTarget(w); t != nil && len(mc.Bindings) == 1 {
+						uses[t] = append(uses[t], use{mc, mc.Bindings[0]})
+					}
+				}
+				return
+			}
+			var callee ssa.Value
+			if c, ok := in.(ssa.CallInstruction); ok {
+				callee = c.Common().Value
+			}
+			for _, op := range in.Operands(nil) {
+				if *op == nil || *op == callee {
+					continue
+				}
+				if f, ok := (*op).(*ssa.Function); ok && f.Parent() == nil && p.InModule(f) {
+					uses[f] = append(uses[f], use{in, nil})
+				}
+			}
+		})
+	}
+	for f, us := range uses {
+		if len(us) != 1 || static[f] != 0 || p.transparent[f] || len(f.Blocks) == 0 || p.IsTestFile(f.Pos()) {
+			continue
+		}
+		if ast.IsExported(f.Name()) || known[p.fnNameRaw(f)] || known[p.FnName(f)] {
+			continue
+		}
+		host := us[0].in.Parent()
+		if host == nil || host == f || p.IsTestFile(host.Pos()) {
+			continue
+		}
+		p.adopted[f] = host
+		p.adoptees[host] = append(p.adoptees[host], f)
+		p.adoptBinding[f] = us[0].recv
+		p.adoptSite[f] = us[0].in
+	}
+	// ordinals: literals and adopted functions of one encloser in source order
+	hosts := map[*ssa.Function]bool{}
+	for h := range p.adoptees {
+		hosts[h] = true
+	}
+	for h := range hosts {
+		type kid struct {
+			f   *ssa.Function
+			pos token.Pos
+		}
+		var kids []kid
+		for _, a := range h.AnonFuncs {
+			kids = append(kids, kid{a, a.Pos()})
+		}
+		for _, a := range p.adoptees[h] {
+			kids = append(kids, kid{a, p.adoptSite[a].Pos()})
+		}
+		sort.SliceStable(kids, func(i, j int) bool { return kids[i].pos < kids[j].pos })
+		for i, k := range kids {
+			p.closureOrd[k.f] = i + 1
+		}
+	}
+	// the name table follows
+	p.byName = map[string]*ssa.Function{}
+	for _, fn := range p.allMod {
+		n := p.FnName(fn)
+		if _, dup := p.byName[n]; !dup {
+			p.byName[n] = fn
+		}
+	}
 }
 
 // Transparent reports whether fn is a helper no rule knows by name.
@@ -389,6 +493,11 @@ func ResolveAll(v ssa.Value) []ssa.Value {
 		switch x := v.(type) {
 		case *ssa.Parameter:
 			fn := x.Parent()
+			if b := p.adoptBinding[fn]; b != nil && len(fn.Params) > 0 && fn.Params[0] == x {
+				// the receiver of a method used as a bound method value at one place
+				rec(b, d+1, nil)
+				return
+			}
 			if p.transparent[fn] {
 				idx := -1
 				for i, q := range fn.Params {
@@ -451,6 +560,11 @@ func ResolveAll(v ssa.Value) []ssa.Value {
 			if len(ctx) > 0 {
 				if sv := spilledValue(x); sv != nil {
 					rec(sv, d+1, ctx)
+					return
+				}
+				// a named result assigned once (`id, ok = m[k]` ... `return id, true`)
+				if st := localSingleStore(x); st != nil {
+					rec(st.Val, d+1, ctx)
 					return
 				}
 			}
@@ -526,36 +640,48 @@ func Canon(v ssa.Value) ssa.Value {
 		if !ok || ld.Op != token.MUL {
 			return v
 		}
-		al, ok := ld.X.(*ssa.Alloc)
-		if !ok {
-			return v
-		}
-		var st *ssa.Store
-		n := 0
-		escapes := false
-		for _, r := range Referrers(al) {
-			switch x := r.(type) {
-			case *ssa.Store:
-				if x.Addr == ssa.Value(al) {
-					if self, ok := x.Val.(*ssa.UnOp); ok && self.Op == token.MUL && self.X == ssa.Value(al) {
-						continue // `return id` of a named result: *id = *id
-					}
-					st = x
-					n++
-				} else {
-					escapes = true
-				}
-			case *ssa.UnOp:
-			default:
-				escapes = true
-			}
-		}
-		if n != 1 || escapes || !Dominates(st, ld) {
+		st := localSingleStore(ld)
+		if st == nil {
 			return v
 		}
 		v = st.Val
 	}
 	return v
+}
+
+// localSingleStore: ld loads a local that does not escape and is assigned
+// exactly once (a named result or a `var x = v` local), the store dominating
+// the load; returns that store.
+func localSingleStore(ld *ssa.UnOp) *ssa.Store {
+	if ld.Op != token.MUL {
+		return nil
+	}
+	al, ok := ld.X.(*ssa.Alloc)
+	if !ok {
+		return nil
+	}
+	var st *ssa.Store
+	n := 0
+	for _, r := range Referrers(al) {
+		switch x := r.(type) {
+		case *ssa.Store:
+			if x.Addr != ssa.Value(al) {
+				return nil // the address escapes
+			}
+			if self, ok := x.Val.(*ssa.UnOp); ok && self.Op == token.MUL && self.X == ssa.Value(al) {
+				continue // `return id` of a named result: *id = *id
+			}
+			st = x
+			n++
+		case *ssa.UnOp:
+		default:
+			return nil
+		}
+	}
+	if n != 1 || !dominatesLocal(st, ld) {
+		return nil
+	}
+	return st
 }
 
 // SameValue: both operands stand for the same SSA value.
@@ -681,4 +807,21 @@ func (p *Prog) onceStoredField(ld *ssa.UnOp) *ssa.Store {
 
 func (p *Prog) inModulePkg(path string) bool {
 	return path == ModulePath || strings.HasPrefix(path, ModulePath+"/")
+}
+
+// ClosureFn is the function a MakeClosure makes a value of: the literal, or
+// the method itself when mc is the bound method value of an adopted method.
+func (p *Prog) ClosureFn(mc *ssa.MakeClosure) *ssa.Function {
+	f, _ := mc.Fn.(*ssa.Function)
+	if f == nil {
+		return nil
+	}
+	if strings.HasPrefix(f.Synthetic, "bound method wrapper") {
+		for t, site := range p.adoptSite {
+			if site == ssa.Instruction(mc) {
+				return t
+			}
+		}
+	}
+	return f
 }
